@@ -1,6 +1,7 @@
 package rules
 
 import (
+	"go/ast"
 	"go/constant"
 	"go/token"
 	"go/types"
@@ -602,6 +603,317 @@ func errBeforeUse(c *core.Ctx, r *core.Report) {
 	r.Floor("uses of results returned with an error", n, 5)
 }
 
+// deferKeepsError implements C14.R13 on the type-checked syntax tree (the named result is a types.Var there; in
+// the SSA form it is one more heap cell). Checked are the packages of inputFacing.
+func deferKeepsError(c *core.Ctx, r *core.Report) {
+	errT := types.Universe.Lookup("error").Type()
+	nDefers, nAssign := 0, 0
+	for _, pkg := range c.Pkgs {
+		rel := strings.TrimPrefix(strings.TrimPrefix(pkg.PkgPath, core.ModPath), "/")
+		if !strings.HasPrefix(rel, "internal/trigger") && rel != "internal/run" {
+			continue
+		}
+		info := pkg.TypesInfo
+		for _, file := range pkg.Syntax {
+			ast.Inspect(file, func(n ast.Node) bool {
+				var ftype *ast.FuncType
+				var body *ast.BlockStmt
+				name := "func literal"
+				switch f := n.(type) {
+				case *ast.FuncDecl:
+					ftype, body, name = f.Type, f.Body, f.Name.Name
+				case *ast.FuncLit:
+					ftype, body = f.Type, f.Body
+				}
+				if ftype == nil || body == nil || ftype.Results == nil {
+					return true
+				}
+				// the named error results of this function
+				results := map[*types.Var]bool{}
+				for _, fld := range ftype.Results.List {
+					for _, id := range fld.Names {
+						if v, ok := info.Defs[id].(*types.Var); ok && types.Identical(v.Type(), errT) {
+							results[v] = true
+						}
+					}
+				}
+				if len(results) == 0 {
+					return true
+				}
+				isRes := func(e ast.Expr) *types.Var {
+					id, ok := ast.Unparen(e).(*ast.Ident)
+					if !ok {
+						return nil
+					}
+					v, _ := info.Uses[id].(*types.Var)
+					if v != nil && results[v] {
+						return v
+					}
+					return nil
+				}
+				// deferred literals of this function's own body (not of nested literals: their `defer` is theirs)
+				var visit func(n ast.Node) bool
+				visit = func(n ast.Node) bool {
+					if _, isLit := n.(*ast.FuncLit); isLit {
+						return false
+					}
+					d, ok := n.(*ast.DeferStmt)
+					if !ok {
+						return true
+					}
+					lit, ok := d.Call.Fun.(*ast.FuncLit)
+					if !ok {
+						return true
+					}
+					nDefers++
+					// walk the literal keeping the stack of enclosing if-conditions (with the branch taken)
+					type guard struct {
+						cond ast.Expr
+						then bool
+					}
+					var walk func(n ast.Node, gs []guard)
+					checkAssign := func(as *ast.AssignStmt, gs []guard) {
+						for i, lhs := range as.Lhs {
+							v := isRes(lhs)
+							if v == nil {
+								continue
+							}
+							nAssign++
+							var rhs ast.Expr
+							if len(as.Rhs) == len(as.Lhs) {
+								rhs = as.Rhs[i]
+							} else if len(as.Rhs) == 1 {
+								rhs = as.Rhs[0]
+							}
+							ok := false
+							why := ""
+							// a freshly built error is never nil
+							if call, isCall := ast.Unparen(rhs).(*ast.CallExpr); isCall && len(as.Rhs) == len(as.Lhs) {
+								if sel, isSel := call.Fun.(*ast.SelectorExpr); isSel {
+									if fn, _ := info.Uses[sel.Sel].(*types.Func); fn != nil && fn.Pkg() != nil {
+										full := fn.Pkg().Path() + "." + fn.Name()
+										if full == "fmt.Errorf" || full == "errors.New" {
+											ok, why = true, "a freshly built error"
+										}
+									}
+								}
+							}
+							for _, g := range gs {
+								be, isBin := ast.Unparen(g.cond).(*ast.BinaryExpr)
+								if !isBin {
+									continue
+								}
+								x, y := be.X, be.Y
+								if id, isId := ast.Unparen(x).(*ast.Ident); isId && id.Name == "nil" {
+									x, y = y, x
+								}
+								if id, isId := ast.Unparen(y).(*ast.Ident); !isId || id.Name != "nil" {
+									continue
+								}
+								eqNil := (be.Op == token.EQL && g.then) || (be.Op == token.NEQ && !g.then)
+								neNil := (be.Op == token.NEQ && g.then) || (be.Op == token.EQL && !g.then)
+								// only while nothing is being returned yet
+								if isRes(x) == v && eqNil {
+									ok, why = true, "assigned only while the result is still nil"
+								}
+								// the value assigned was tested non-nil
+								if neNil && rhs != nil && types.ExprString(ast.Unparen(x)) == types.ExprString(ast.Unparen(rhs)) && isRes(x) == nil {
+									ok, why = true, "the value assigned was tested non-nil"
+								}
+								// re-wrapping the result itself under `result != nil`
+								if isRes(x) == v && neNil {
+									if call, isCall := ast.Unparen(rhs).(*ast.CallExpr); isCall {
+										_ = call
+										ok, why = ok, why
+									}
+								}
+							}
+							key := name + "#deferred-" + v.Name()
+							pos := c.Pos(as.Pos())
+							if ok {
+								r.OK(key, pos, "deferred assignment to %s: %s", v.Name(), why)
+							} else {
+								r.Violation(key, pos, "a deferred function assigns the error result %s with %s, which may be nil, whatever is being returned: a failure on the way (a read error, a rejected input) is erased, the caller gets a nil value with a nil error and dereferences it", v.Name(), types.ExprString(rhs))
+							}
+						}
+					}
+					walk = func(n ast.Node, gs []guard) {
+						switch x := n.(type) {
+						case nil:
+							return
+						case *ast.FuncLit:
+							return
+						case *ast.IfStmt:
+							if x.Init != nil {
+								walk(x.Init, gs)
+							}
+							walk(x.Body, append(append([]guard{}, gs...), guard{x.Cond, true}))
+							if x.Else != nil {
+								walk(x.Else, append(append([]guard{}, gs...), guard{x.Cond, false}))
+							}
+							return
+						case *ast.AssignStmt:
+							checkAssign(x, gs)
+							return
+						case *ast.BlockStmt:
+							for _, s := range x.List {
+								walk(s, gs)
+							}
+							return
+						case *ast.ForStmt:
+							walk(x.Body, gs)
+							return
+						case *ast.RangeStmt:
+							walk(x.Body, gs)
+							return
+						case *ast.SwitchStmt:
+							walk(x.Body, gs)
+							return
+						case *ast.CaseClause:
+							for _, s := range x.Body {
+								walk(s, gs)
+							}
+							return
+						case *ast.LabeledStmt:
+							walk(x.Stmt, gs)
+							return
+						}
+					}
+					walk(lit.Body, nil)
+					return true
+				}
+				ast.Inspect(body, visit)
+				return true
+			})
+		}
+	}
+	r.OK("input-facing#deferred-literals", "-", "%d deferred literals in functions with a named error result, %d assignments to such a result inside them", nDefers, nAssign)
+}
+
+// gateClosesBeforeDrain implements C02.R11.
+func gateClosesBeforeDrain(c *core.Ctx, r *core.Report) {
+	pf := findPending(c)
+	if pf == nil {
+		r.Undecided("anchor", "-", "pending counter not resolved")
+		return
+	}
+	isSet := func(_ ssa.CallInstruction, t *ssa.Function) bool { return t != nil && pf.setFns[t] }
+	// atomic.Bool operations seen from a root function (through helpers)
+	type flagEv struct {
+		fld *types.Var
+		op  string
+		ev  an.Event
+		val ssa.Value
+	}
+	flagOps := func(root *ssa.Function) []flagEv {
+		var out []flagEv
+		an.Flatten(root, flatDepth, nil, func(e an.Event) {
+			call := e.Call()
+			if call == nil {
+				return
+			}
+			t := an.Callee(call)
+			if t == nil || t.Pkg == nil || t.Pkg.Pkg.Path() != "sync/atomic" || t.Signature.Recv() == nil || len(call.Common().Args) == 0 {
+				return
+			}
+			if !an.IsNamed(t.Signature.Recv().Type(), "sync/atomic", "Bool") {
+				return
+			}
+			fld, _ := an.TerminalField(call.Common().Args[0])
+			if fld == nil {
+				return
+			}
+			fe := flagEv{fld: fld, op: t.Name(), ev: e}
+			if len(call.Common().Args) > 1 {
+				fe.val = call.Common().Args[1]
+			}
+			out = append(out, fe)
+		})
+		return out
+	}
+	var pkgFns []*ssa.Function
+	for _, fn := range c.AllFuncs {
+		if core.RelPkg(fn) == "internal/workers" && fn.Parent() == nil {
+			pkgFns = append(pkgFns, fn)
+		}
+	}
+	// acceptors: functions handing a non-constant count to the supersede (through helpers), not called by another one
+	acceptsAt := map[*ssa.Function][]an.Event{}
+	for _, fn := range pkgFns {
+		for _, e := range an.FlatCalls(fn, flatDepth, isSet) {
+			root, isCall := e.Root().(ssa.CallInstruction)
+			if !isCall || root.Parent() != fn {
+				continue
+			}
+			nonConst := false
+			for _, a := range root.Common().Args {
+				if _, isK := a.(*ssa.Const); !isK && isIntType(a.Type()) {
+					nonConst = true
+				}
+			}
+			if nonConst {
+				acceptsAt[fn] = append(acceptsAt[fn], e)
+			}
+		}
+	}
+	top := map[*ssa.Function]bool{}
+	for fn := range acceptsAt {
+		top[fn] = true
+	}
+	for a := range acceptsAt {
+		for b := range acceptsAt {
+			if a != b && len(an.FlatCalls(a, flatDepth, func(_ ssa.CallInstruction, t *ssa.Function) bool { return t == b })) > 0 {
+				delete(top, b)
+			}
+		}
+	}
+	// the flags by which ticks are accepted without a look at the context
+	gates := map[*types.Var]*ssa.Function{}
+	nAcc := 0
+	for fn := range top {
+		nAcc++
+		for _, e := range acceptsAt[fn] {
+			ctxGated := false
+			for _, ce := range an.FlatCalls(fn, flatDepth, func(call ssa.CallInstruction, t *ssa.Function) bool {
+				return call.Common().IsInvoke() && call.Common().Method.Name() == "Err" && an.IsNamed(call.Common().Value.Type(), "context", "Context")
+			}) {
+				if an.Before(ce, e) {
+					ctxGated = true
+				}
+			}
+			if ctxGated {
+				continue
+			}
+			for _, fe := range flagOps(fn) {
+				if fe.op == "Load" && an.Before(fe.ev, e) {
+					gates[fe.fld] = fn
+				}
+			}
+		}
+	}
+	r.Exists("functions accepting ticks", "-", "%d", nAcc)
+	if len(gates) == 0 {
+		r.OK("gate#context", "-", "ticks are accepted by the context (or unconditionally): no stop flag gates them; the order of flag and supersede in the stop function does not matter for accepting")
+		return
+	}
+	for _, fn := range pkgFns {
+		sets := an.FlatCalls(fn, flatDepth, isSet)
+		if len(sets) == 0 {
+			continue
+		}
+		for _, fe := range flagOps(fn) {
+			acc, gated := gates[fe.fld]
+			k, isK := fe.val.(*ssa.Const)
+			if !gated || fe.op != "Store" || !isK || k.Value == nil || k.Value.String() != "true" {
+				continue
+			}
+			for _, se := range sets {
+				r.Check(an.Before(fe.ev, se), core.FuncName(fn)+"#gate-before-supersede", an.Pos(c, se.Root()), "the flag that "+acc.Name()+" accepts ticks by is set before the pending work is superseded for the last time", "the pending work is superseded before the flag that "+core.FuncName(acc)+" accepts ticks by is set: a tick arriving in between is accepted after the final accounting — it is neither started nor reported dropped")
+			}
+		}
+	}
+}
+
 // restartDelivery implements C18.R6.
 func restartDelivery(c *core.Ctx, r *core.Report) {
 	f := findRunner(c)
@@ -1129,6 +1441,9 @@ func init() {
 		rule(r, "C14.R12", "in input-facing code a pointer, slice, map or interface returned together with an error is used (dereferenced, indexed, called on) only after that error was tested nil: a rejected input must come back as the error, not as a nil dereference", func() {
 			errBeforeUse(c, r)
 		})
+		rule(r, "C14.R13", "in input-facing code a deferred function does not erase the error being returned: an assignment to a named error result inside a deferred literal stores a value that is not nil (fmt.Errorf / errors.New / a value tested non-nil) or runs only when the result is still nil — otherwise a read or parse failure comes back as (nil, nil) and the caller dereferences nil", func() {
+			deferKeepsError(c, r)
+		})
 	})
 	extra["C19"] = append(extra["C19"], func(c *core.Ctx, r *core.Report) {
 		rule(r, "C19.R9", "a share of the failed iterations stated anywhere (a percentage next to the verdict's threshold) is taken of all iterations — successful, failed and dropped — like the share the verdict tests: every quotient in internal/progress whose numerator is the failed count divides by a total that includes the dropped count", func() {
@@ -1242,6 +1557,11 @@ func init() {
 				r.Check(ok && tot.Lo == 1 && tot.Hi == 1, core.FuncName(fn)+"#supersedes", c.Pos(fn.Pos()), "the stop supersedes the pending work exactly once on every path", "on the stop path the pending counter is swapped "+tot.String()+" times (expected exactly once): work still pending when triggering stops is neither started nor reported dropped")
 			}
 			r.Floor("stop functions of pools with a pending counter", n, 1)
+		})
+	})
+	extra["C02"] = append(extra["C02"], func(c *core.Ctx, r *core.Report) {
+		rule(r, "C02.R11", "the gate a tick passes is closed before the final accounting: when the function that accepts a tick decides by the pool's stop flag alone (not by its context), the stop function stores that flag before it supersedes the pending work — otherwise a tick arriving between the final supersede and the flag is accepted after the accounting and is neither started nor reported dropped", func() {
+			gateClosesBeforeDrain(c, r)
 		})
 	})
 	extra["C18"] = append(extra["C18"], func(c *core.Ctx, r *core.Report) {
